@@ -83,10 +83,15 @@ def whensUp (S : Schema) (W : WhenTab) : Nat → Nat → List (Bool × Bytes)
       | some p => if isChoiceOrCase S p then whensUp S W fuel p else []
       | none => []
 
+/-- the whens a data node inherits from the `uses` / `augment` statement that brought it into the schema (`lysc_when.context` = the
+schema PARENT of the node, so the XPath context node is the data parent): the table carries them under the key `sid + #nodes`, which is
+no schema id.  In `lysc_node_when` they follow the node's own whens -/
+def inhWhens (S : Schema) (W : WhenTab) (sid : Nat) : List Bytes := ownWhens W (sid + S.nodes.length)
+
 /-- all whens that affect an instance of the data node `sid`, in the order `lyd_validate_node_when` evaluates them;
-`true` = the context node is the instance itself -/
+`true` = the context node is the instance itself.  The context node is chosen PER `when` (`when->context == schema`), not per node -/
 def whensOf (S : Schema) (W : WhenTab) (sid : Nat) : List (Bool × Bytes) :=
-  (ownWhens W sid).map (fun e => (true, e)) ++
+  (ownWhens W sid).map (fun e => (true, e)) ++ (inhWhens S W sid).map (fun e => (false, e)) ++
     match sparent S sid with
     | some p => if isChoiceOrCase S p then whensUp S W S.nodes.length p else []
     | none => []
@@ -489,9 +494,10 @@ theorem whensUp_nil (S : Schema) : ∀ (fuel sid : Nat), whensUp S [] fuel sid =
       · rfl
 
 theorem whensOf_nil (S : Schema) (sid : Nat) : whensOf S [] sid = [] := by
-  unfold whensOf
+  unfold whensOf inhWhens
   have h0 : ownWhens [] sid = [] := rfl
-  rw [h0]
+  have h1 : ownWhens [] (sid + S.nodes.length) = [] := rfl
+  rw [h0, h1]
   cases sparent S sid with
   | none => rfl
   | some p =>
